@@ -121,6 +121,54 @@ var consumers = []consumer{
 	{`Unmarshal(s, &any)`,
 		func(d []byte) error { var v any; return stdjson.Unmarshal(d, &v) },
 		func(d []byte) error { var v any; return segjson.Unmarshal(d, &v) }},
+	// the same syntax-only targets already holding data (decoded into, as a variable reused by a loop is)
+	{`Unmarshal({"k":s}, &map[string]RawMessage{"z":0})`,
+		func(d []byte) error {
+			v := map[string]stdjson.RawMessage{"z": stdjson.RawMessage("0")}
+			return stdjson.Unmarshal(embed(`{"k":`, d, `}`), &v)
+		},
+		func(d []byte) error {
+			v := map[string]segjson.RawMessage{"z": segjson.RawMessage("0")}
+			return segjson.Unmarshal(embed(`{"k":`, d, `}`), &v)
+		}},
+	{`Unmarshal(s, &map[string]RawMessage{"z":0,"k":1})`,
+		func(d []byte) error {
+			v := map[string]stdjson.RawMessage{"z": stdjson.RawMessage("0"), "k": stdjson.RawMessage("1")}
+			return stdjson.Unmarshal(d, &v)
+		},
+		func(d []byte) error {
+			v := map[string]segjson.RawMessage{"z": segjson.RawMessage("0"), "k": segjson.RawMessage("1")}
+			return segjson.Unmarshal(d, &v)
+		}},
+	{`Unmarshal(s, &map[string]any{"z":0})`,
+		func(d []byte) error { v := map[string]any{"z": 0.0}; return stdjson.Unmarshal(d, &v) },
+		func(d []byte) error { v := map[string]any{"z": 0.0}; return segjson.Unmarshal(d, &v) }},
+	{`Unmarshal(s, &any) with the any holding a map, then a slice`,
+		func(d []byte) error {
+			var v any = map[string]any{"z": 0.0}
+			if err := stdjson.Unmarshal(d, &v); err != nil {
+				return err
+			}
+			v = []any{1.0, "x"}
+			return stdjson.Unmarshal(d, &v)
+		},
+		func(d []byte) error {
+			var v any = map[string]any{"z": 0.0}
+			if err := segjson.Unmarshal(d, &v); err != nil {
+				return err
+			}
+			v = []any{1.0, "x"}
+			return segjson.Unmarshal(d, &v)
+		}},
+	{`Unmarshal(s, &[]RawMessage{0,1})`,
+		func(d []byte) error {
+			v := []stdjson.RawMessage{stdjson.RawMessage("0"), stdjson.RawMessage("1")}
+			return stdjson.Unmarshal(d, &v)
+		},
+		func(d []byte) error {
+			v := []segjson.RawMessage{segjson.RawMessage("0"), segjson.RawMessage("1")}
+			return segjson.Unmarshal(d, &v)
+		}},
 }
 
 // framing: values returned by successive Decode(&RawMessage) calls until error.
